@@ -23,7 +23,7 @@ import (
 )
 
 type c07chain struct {
-	Mode   string `json:"mode"` // switch | god
+	Mode   string `json:"mode"` // switch | god | rollback
 	Seed   int64  `json:"seed"`
 	Blocks int    `json:"blocks"`
 }
@@ -63,11 +63,13 @@ type c07bundle struct {
 }
 
 type c07chainRun struct {
-	out   *c07out
-	keys  map[common.Address]*ecdsa.PrivateKey
-	fail  string
-	r     *rand.Rand
-	evals int
+	steps  []uint8         // steps whose committee / certificates are checked before a block (default Final, 1)
+	prefer *common.Address // an eligible voter that must sign the certificates when it is eligible
+	out    *c07out
+	keys   map[common.Address]*ecdsa.PrivateKey
+	fail   string
+	r      *rand.Rand
+	evals  int
 }
 
 func (cr *c07chainRun) failf(format string, a ...interface{}) {
@@ -158,7 +160,11 @@ func (cr *c07chainRun) beforeBlock(P *chainfx.Node, who string, pre c07pre, blk 
 	reloaded := validators.NewValidatorsCache(P.App.IdentityState, pre.god)
 	reloaded.Load()
 	height := blk.Height()
-	for _, step := range []uint8{types.Final, 1} {
+	steps := cr.steps
+	if steps == nil {
+		steps = []uint8{types.Final, 1}
+	}
+	for _, step := range steps {
 		final := step == types.Final
 		limit := P.Chain.GetCommitteeSize(live, final)
 		permTok, _ := c07permTokFor(live.ValidatorsSize(), live.OnlineSize(), limit, pre.prev, height, step)
@@ -179,6 +185,14 @@ func (cr *c07chainRun) beforeBlock(P *chainfx.Node, who string, pre c07pre, blk 
 		cr.out.hit("chain:com")
 		cr.evals++
 		ref, need, approved, _ := c07refFor(pre, height, step)
+		if cr.prefer != nil {
+			for i, a := range approved {
+				if a == *cr.prefer {
+					approved[0], approved[i] = approved[i], approved[0]
+					cr.out.hit("chain:preferred-voter-signs")
+				}
+			}
+		}
 		if c07svStr(sv) != c07svStr(sv2) {
 			cr.failf("live cache of the %s node before height %d (step %d) draws another committee than a cache reloaded from the same identity state and god address: live %s / reloaded %s", who, height, step, c07svStr(sv), c07svStr(sv2))
 		}
@@ -364,6 +378,9 @@ func c07runChain(ch c07chain) (out *c07out, failure string) {
 		}
 		out.evals = cr.evals
 	}()
+	if ch.Mode == "rollback" {
+		return out, c07runRollback(ch, cr)
+	}
 	var A, B, C *chainfx.Node
 	var W *chainfx.World
 	var H *chainfx.History
@@ -500,4 +517,160 @@ func c07shrinkChain(cs c07case) c07case {
 		}
 	}
 	return best
+}
+
+// rollback route: a long-running node R applies a delegation incrementally (delegation-switch block, IdentityUpdate) on a
+// branch that is then abandoned: Chain.ResetTo below it (the real AppState.ResetTo -> ValidatorsCache.Load on the ALREADY
+// POPULATED cache), then R follows another branch without that delegation.  On every following block R's live cache must
+// draw the committee of a freshly loaded cache / the reference / the model, and exact-quorum certificates signed (among
+// others) by the formerly delegating identity must pass ValidateBlockCert on R.
+func c07runRollback(ch c07chain, cr *c07chainRun) string {
+	out := cr.out
+	r := cr.r
+	states := []state.IdentityState{state.Verified, state.Human, state.Verified, state.Human, state.Verified, state.Human, state.Verified}
+	W := chainfx.NewWorldStates(ch.Seed, 7, 0, time.Date(2030, 1, 1, 0, 0, 0, 0, time.UTC), state.Verified, states)
+	W.Seasoned()
+	H, err := chainfx.Bootstrap(W, chainfx.HistoryOpts{}, r, true)
+	if err != nil {
+		return "chain history broken: " + err.Error()
+	}
+	A, S := H.N, H.S
+	A2, err := W.StartNode(nil, 0, true) // the same proposing identity on another replica: it will build the other branch
+	if err != nil {
+		return "chain history broken: " + err.Error()
+	}
+	R, err := W.StartNode(nil, 1, true) // the long-running node that will roll back
+	if err != nil {
+		return "chain history broken: " + err.Error()
+	}
+	for i, k := range W.Keys {
+		cr.keys[W.Addrs[i]] = k
+	}
+	step := func(P *chainfx.Node, followers ...*chainfx.Node) (*types.Block, string) {
+		chainfx.Advance(20 * time.Second)
+		if !P.IsEligibleProposer() {
+			return nil, "chain history broken: proposer not eligible"
+		}
+		prop, err := P.Propose()
+		if err != nil {
+			return nil, "chain history broken: " + err.Error()
+		}
+		if err := P.Add(prop.Block); err != nil {
+			return nil, "chain history broken: own block refused: " + err.Error()
+		}
+		for _, f := range followers {
+			nb, _ := chainfx.CloneBlock(prop.Block)
+			if err := f.Add(nb); err != nil {
+				return nil, fmt.Sprintf("chain history broken: follower refuses block %d: %v", prop.Block.Height(), err)
+			}
+		}
+		return prop.Block, ""
+	}
+	// common prefix: everybody goes online
+	if _, f := step(A, A2, R); f != "" {
+		return f
+	}
+	for i := 1; i < len(W.Keys); i++ {
+		S.Send(A, i, chainfx.OnlineTx(true))
+	}
+	allOnline := func() bool {
+		for i := range W.Keys {
+			if !A.App.ValidatorsCache.IsOnlineIdentity(W.Addrs[i]) {
+				return false
+			}
+		}
+		return true
+	}
+	for b := 0; b < 10 && !allOnline(); b++ {
+		if _, f := step(A, A2, R); f != "" {
+			return f
+		}
+	}
+	if !allOnline() {
+		return "chain history broken: identities did not go online"
+	}
+	for b, n := 0, r.Intn(3); b < n; b++ {
+		if _, f := step(A, A2, R); f != "" {
+			return f
+		}
+	}
+	h0 := A.Chain.Head.Height()
+	// abandoned branch: d delegates to p; followed live by R until the delegation-switch block applied it
+	di := 2 + r.Intn(len(W.Keys)-2)
+	pi := 2 + r.Intn(len(W.Keys)-2)
+	for pi == di {
+		pi = 2 + r.Intn(len(W.Keys)-2)
+	}
+	d, p := W.Addrs[di], W.Addrs[pi]
+	if _, err := S.Send(A, di, &types.Transaction{Type: types.DelegateTx, To: &p}); err != nil {
+		return "chain history broken: delegate tx: " + err.Error()
+	}
+	applied := false
+	for b := 0; b < 12 && !applied; b++ {
+		blk, f := step(A, R)
+		if f != "" {
+			return f
+		}
+		if R.App.ValidatorsCache.Delegator(d) == p {
+			applied = true
+			if !c07hasFlag(blk, types.IdentityUpdate) {
+				return "chain history broken: delegation applied by a block without the IdentityUpdate flag"
+			}
+			out.hit("rollback:delegation-applied-incrementally-at-identity-update-block")
+		}
+	}
+	if !applied {
+		return "chain history broken: delegation was not applied"
+	}
+	for b, n := 0, r.Intn(2); b < n; b++ {
+		if _, f := step(A, R); f != "" {
+			return f
+		}
+	}
+	// fork switch on R: the real Blockchain.ResetTo (AppState.ResetTo -> ValidatorsCache.Load on the populated cache)
+	var rerr error
+	func() {
+		defer func() {
+			if rec := recover(); rec != nil {
+				rerr = fmt.Errorf("panic: %v", rec)
+			}
+		}()
+		_, rerr = R.Chain.ResetTo(h0)
+	}()
+	if rerr != nil {
+		return "chain history broken: ResetTo: " + rerr.Error()
+	}
+	if R.Chain.Head.Hash() != A2.Chain.Head.Hash() {
+		return "chain history broken: rolled back node is not on the common ancestor"
+	}
+	out.hit("rollback:reset-below-delegation")
+	// the other branch (no delegation), built by A2 and followed by R
+	cr.steps = []uint8{types.Final, 1, 2, types.ReductionOne}
+	cr.prefer = &d
+	S2 := chainfx.NewSender(W)
+	for b := 1; b <= ch.Blocks && cr.fail == ""; b++ {
+		if r.Intn(2) == 0 {
+			to := W.Addrs[1+r.Intn(len(W.Addrs)-1)]
+			S2.Send(A2, 1+r.Intn(len(W.Keys)-1), &types.Transaction{Type: types.SendTx, To: &to, Amount: chainfx.Dna(1)})
+		}
+		chainfx.Advance(20 * time.Second)
+		if !A2.IsEligibleProposer() {
+			return "chain history broken: proposer of the other branch not eligible"
+		}
+		prop, err := A2.Propose()
+		if err != nil {
+			return "chain history broken: " + err.Error()
+		}
+		pre := c07pre{recs: c07dumpRecs(R.App.IdentityState), god: R.App.State.GodAddress(), prev: R.Chain.Head}
+		cr.beforeBlock(R, "rolled-back", pre, prop.Block)
+		if err := A2.Add(prop.Block); err != nil {
+			return "chain history broken: own block refused: " + err.Error()
+		}
+		nb, _ := chainfx.CloneBlock(prop.Block)
+		if err := R.Add(nb); err != nil {
+			cr.failf("chain history broken: rolled back node refuses block %d of the other branch: %v", nb.Height(), err)
+		}
+		out.hit("rollback:block-on-other-branch")
+	}
+	return cr.fail
 }
